@@ -179,12 +179,12 @@ theorem line_symm (a b : Sq) : Geom.line a b = Geom.line b a := by
 
 /-! ### stepping helpers of `square.rs` -/
 
-theorem mkSq_file (r f : Fin 8) : (mkSq r f).file = (f.val : Int) := by
+theorem Sq.file_mkSq (r f : Fin 8) : (mkSq r f).file = (f.val : Int) := by
   unfold mkSq Sq.file
   simp only
   omega
 
-theorem mkSq_rank (r f : Fin 8) : (mkSq r f).rank = (r.val : Int) := by
+theorem Sq.rank_mkSq (r f : Fin 8) : (mkSq r f).rank = (r.val : Int) := by
   unfold mkSq Sq.rank
   simp only
   omega
@@ -193,33 +193,33 @@ theorem Sq.getFile_val (s : Sq) : (s.getFile.val : Int) = s.file := rfl
 theorem Sq.getRank_val (s : Sq) : (s.getRank.val : Int) = s.rank := rfl
 
 theorem Sq.uup_file (s : Sq) : s.uup.file = s.file := by
-  unfold Sq.uup; rw [mkSq_file]; rfl
+  unfold Sq.uup; rw [Sq.file_mkSq]; rfl
 theorem Sq.udown_file (s : Sq) : s.udown.file = s.file := by
-  unfold Sq.udown; rw [mkSq_file]; rfl
+  unfold Sq.udown; rw [Sq.file_mkSq]; rfl
 theorem Sq.uleft_rank (s : Sq) : s.uleft.rank = s.rank := by
-  unfold Sq.uleft; rw [mkSq_rank]; rfl
+  unfold Sq.uleft; rw [Sq.rank_mkSq]; rfl
 theorem Sq.uright_rank (s : Sq) : s.uright.rank = s.rank := by
-  unfold Sq.uright; rw [mkSq_rank]; rfl
+  unfold Sq.uright; rw [Sq.rank_mkSq]; rfl
 
 /-- rank after `uup`, including the wrap-around on the last rank -/
 theorem Sq.uup_rank' (s : Sq) : s.uup.rank = (s.rank + 1) % 8 := by
   have := Sq.coord_bounds s
-  unfold Sq.uup; rw [mkSq_rank]
+  unfold Sq.uup; rw [Sq.rank_mkSq]
   unfold rankUp Sq.getRank Sq.rank
   simp only
   omega
 theorem Sq.udown_rank' (s : Sq) : s.udown.rank = (s.rank + 7) % 8 := by
-  unfold Sq.udown; rw [mkSq_rank]
+  unfold Sq.udown; rw [Sq.rank_mkSq]
   unfold rankDown Sq.getRank Sq.rank
   simp only
   omega
 theorem Sq.uright_file' (s : Sq) : s.uright.file = (s.file + 1) % 8 := by
-  unfold Sq.uright; rw [mkSq_file]
+  unfold Sq.uright; rw [Sq.file_mkSq]
   unfold fileRight Sq.getFile Sq.file
   simp only
   omega
 theorem Sq.uleft_file' (s : Sq) : s.uleft.file = (s.file + 7) % 8 := by
-  unfold Sq.uleft; rw [mkSq_file]
+  unfold Sq.uleft; rw [Sq.file_mkSq]
   unfold fileLeft Sq.getFile Sq.file
   simp only
   omega
@@ -271,7 +271,7 @@ theorem Sq.uright_eq_stepWrap : ∀ s : Sq, s.uright = Geom.stepWrap s 1 0 := by
 theorem Sq.uforward_of_step {s o : Sq} {c : Color} (h : Geom.step s 0 c.fwd = some o) :
     s.uforward c = o := by
   unfold Geom.step at h
-  rw [sq?_eq_some] at h
+  rw [sq?_eq_some_iff] at h
   have ho := Sq.coord_bounds o
   have hs := Sq.coord_bounds s
   apply Sq.ext_coord
@@ -283,7 +283,7 @@ theorem Sq.uforward_of_step {s o : Sq} {c : Color} (h : Geom.step s 0 c.fwd = so
 theorem Sq.ubackward_of_step {s o : Sq} {c : Color} (h : Geom.step s 0 (-c.fwd) = some o) :
     s.ubackward c = o := by
   unfold Geom.step at h
-  rw [sq?_eq_some] at h
+  rw [sq?_eq_some_iff] at h
   have ho := Sq.coord_bounds o
   have hs := Sq.coord_bounds s
   apply Sq.ext_coord
